@@ -342,7 +342,14 @@ func (b *StringBuilder) WriteSubstring(source String, start int, end int) {
 		}
 	}
 	b.unicodeBuilder.buf = append(b.unicodeBuilder.buf, us[start+1:end+1]...)
-	b.unicodeBuilder.unicode = true
+	if !b.unicodeBuilder.unicode {
+		for _, c := range us[start+1 : end+1] {
+			if c >= utf8.RuneSelf {
+				b.unicodeBuilder.unicode = true
+				break
+			}
+		}
+	}
 }
 
 func (s unicodeString) Reader() io.RuneReader {
